@@ -112,8 +112,12 @@ def call(model, c, with_trace):
 
 
 def trace_state(model):
-    return [(list(tr.names), list(tr.index), None if tr.is_empty() else np.array(tr.values, dtype=float))
-            for tr in model[type(model).TRACE_NAME]]
+    # (emptiness is judged from the stored array itself, not through Trace.is_empty(): that method is code under test)
+    out = []
+    for tr in model[type(model).TRACE_NAME]:
+        vals = np.asarray(tr.values, dtype=float)
+        out.append((list(tr.names), list(tr.index), None if vals.size == 0 else vals))
+    return out
 
 
 def check_case(case):
@@ -204,6 +208,10 @@ def check_case(case):
             if list(a_names) != names:
                 changed = '/name-list-changed' if (b_index and list(b_names) != names) else ''
                 res.fail(f'trace-content/{cls}/names{changed}', f'{detail}: period {p}: trace names {a_names}, requested {names}')
+                continue
+            if a_vals is None or a_vals.ndim != 2 or a_vals.shape != (len(names), len(a_index)):
+                res.fail(f'trace-content/{cls}/values-shape', f'{detail}: period {p}: labels {a_index} for {names} but the stored '
+                         f'values have shape {None if a_vals is None else a_vals.shape}')
                 continue
             got_vals = a_vals[:, len(b_index):]
             for j, (lab, cells) in enumerate(zip(exp_labels, rows)):
